@@ -77,6 +77,26 @@ def scenarios(ctx):
     return out
 
 
+def initerror_scenarios(ctx):
+    """the payload of /runtime/init/error around the limit: it is cached and becomes the answer of the next invocation;
+    one above the limit reaches the caller as the too-large error (naming both sizes), the emulator stays usable"""
+    rnd = random.Random(ctx.seed * 23 + 16)
+    out = []
+    for i, size in enumerate([L, L + 1] if ctx.quick else [0, 1, L - 1, L, L + 1, L + 4096, 8 * 1024 * 1024]):
+        s = Scn("c14-ie%02d" % i, ext=[], timeout_ms=1000, opWaitMs=10000)
+        s.meta(family="sizes", initerror=size)
+        s.init()
+        s.await_exec(kind="rt")
+        s.call("rt", "initerror", size=size, seed=rnd.randrange(1, 10 ** 6), errType="Runtime.InitBig")
+        s.exit("rt", code=1)
+        s.until_ev("Tel", key="kind", val="InitReport")
+        it = s.invoke(size=4, seed=1)
+        s.wait(it)
+        s.recover({})
+        out.append(s.done())
+    return out
+
+
 def fe_scenarios(ctx):
     """the same through the HTTP front end: oversize answers must come back as the error document with status 200
     and the next request must be served by the same runtime"""
@@ -114,7 +134,7 @@ def fe_scenarios(ctx):
 def run(ctx):
     ctx.level = "model_checking"
     ctx.assumptions += sc.ASSUME
-    sc.run_families(ctx, scenarios(ctx), "sizes")
+    sc.run_families(ctx, scenarios(ctx) + initerror_scenarios(ctx), "sizes")
     sc.run_families(ctx, fe_scenarios(ctx), "sizes-frontend")
     ctx.coverage["exhaustive"] = False
 
